@@ -318,6 +318,57 @@ func useFold() int { return Fold([]string{"a"}, func(acc int, v string) int { re
 }
 
 func useFold() int { return Fold([]string{"a"}, func(acc int, v string) int { return acc + len(v) }) }`},
+	// the type parameter of a generic function that calls another generic function
+	{"type-parameter-name-in-generic-callee", `func contains[S ~[]E, E comparable](s S, v E) bool {
+	for _, e := range s {
+		if e == v {
+			return true
+		}
+	}
+	return false
+}
+
+func Has[T comparable](s []T, v T) bool {
+	if len(s) == 0 {
+		return false
+	}
+	return contains(s, v)
+}
+
+func useHas() bool { return Has([]int{1, 2}, 2) }`, `func contains[S ~[]E, E comparable](s S, v E) bool {
+	for _, e := range s {
+		if e == v {
+			return true
+		}
+	}
+	return false
+}
+
+func Has[Elem comparable](s []Elem, v Elem) bool {
+	if len(s) == 0 {
+		return false
+	}
+	return contains(s, v)
+}
+
+func useHas() bool { return Has([]int{1, 2}, 2) }`},
+	// parameter names of func types inside chan, interface-literal and struct-literal types, in
+	// the type of a called func value
+	{"names-inside-chan-interface-struct-types", `func Drive(run func(chan func(x int) int), probe func(interface{ M(x int) }), set func(struct{ F func(a int) }), v int) int {
+	if v > 1 {
+		run(nil)
+	}
+	probe(nil)
+	set(struct{ F func(a int) }{})
+	return v
+}`, `func Drive(run func(chan func(y int) int), probe func(interface{ M(y int) }), set func(struct{ F func(b int) }), v int) int {
+	if v > 1 {
+		run(nil)
+	}
+	probe(nil)
+	set(struct{ F func(b int) }{})
+	return v
+}`},
 }
 
 // RenderPair returns an analysable file holding one version of a rename pair.
